@@ -40,6 +40,12 @@ def cli_archives(c, rnd, n, seen):
                 kdf = rnd.choice([(["--pbkdf2", "r=1"], "pbkdf2.1"), (["--argon2", "t=1,m=8,p=1"], "argon2.1.8.1")])
                 kind = rnd.choice(["create", "create", "solid", "append", "update", "keepsolid", "stdio", "split", "solidsplit"])
                 encargs = ["--store", "--" + enc, mode] + kdf[0] + ["--password", pw]
+                # a password with NO cipher flag: the documented default is AES in CTR mode with argon2id at its default cost
+                # (seeded C08-6: the default dropped, the data stored in the clear behind a header that says "not encrypted")
+                bare = rnd.random() < 0.2
+                if bare:
+                    enc, mode, kdf = "aes", "ctr", ([], "argon2.-.-.-")
+                    encargs = ["--store", "--password", pw]
                 a = d + "/a.pna"
                 hist = []
                 def go(args):
